@@ -58,7 +58,9 @@ func TestC13_Known_EthConsensusClientType(t *testing.T) {
 
 func TestC13_Known_TmIterationKeysNotExported(t *testing.T) {
 	pinned(t, keyTMIterKeys, "one Tendermint client created at 0-1 and updated to 0-2",
-		func(e *env) { e.create(clientPlan{Name: "tm-main", Type: tTM, H0: 1, UpdRevs: []uint64{0}, Vals: 1}, 0, pinnedTSS) },
+		func(e *env) {
+			e.create(clientPlan{Name: "tm-main", Type: tTM, H0: 1, UpdRevs: []uint64{0}, Vals: 1}, 0, pinnedTSS)
+		},
 		func(v *violation) bool {
 			return v.Clause == "dump" && strings.Contains(v.Msg, "differs in 2 keys") && strings.Count(v.Msg, "iterateConsensusStates") == 2
 		})
@@ -67,7 +69,9 @@ func TestC13_Known_TmIterationKeysNotExported(t *testing.T) {
 func TestC13_Known_ZeroHeightClientExportInvalid(t *testing.T) {
 	pinned(t, keyZeroHeight, "one BSC client created at block 0 (revision 0)",
 		func(e *env) { e.create(clientPlan{Name: "bsc-main", Type: tBSC, H0: 0, Vals: 1}, 0, pinnedTSS) },
-		func(v *violation) bool { return v.Clause == "validate" && strings.Contains(v.Msg, "consensus state height cannot be zero") })
+		func(v *violation) bool {
+			return v.Clause == "validate" && strings.Contains(v.Msg, "consensus state height cannot be zero")
+		})
 }
 
 // toggle builds the new client state on a scratch branch and toggles through the keeper the way the
@@ -96,5 +100,20 @@ func TestC13_Known_ToggleLeavesOldTypeState(t *testing.T) {
 		},
 		func(v *violation) bool {
 			return v.Clause == "validate" && strings.Contains(v.Msg, "consensus state client type bsc does not equal client state client type tendermint")
+		})
+}
+
+func TestC13_Known_TssConsensusStateAtZeroHeight(t *testing.T) {
+	pinned(t, keyTSSZeroHeight, "one TSS client, upgraded once (UpgradeClient with a rotated public key)",
+		func(e *env) {
+			e.create(clientPlan{Name: "tss-net", Type: tTSS, Vals: 1}, 0, pinnedTSS)
+			sctx, _ := baseChain().Ctx().CacheContext()
+			se := &env{c: baseChain(), ctx: sctx}
+			se.create(clientPlan{Name: "tss-net", Type: tTSS, Vals: 2}, 0, pinnedTSS)
+			ncs, _ := se.ck().GetClientState(sctx, "tss-net")
+			kit.Must(e.ck().UpgradeClient(e.ctx, "tss-net", ncs, &tssCons), "UpgradeClient")
+		},
+		func(v *violation) bool {
+			return v.Clause == "validate" && strings.Contains(v.Msg, "consensus state height cannot be zero")
 		})
 }
